@@ -201,7 +201,7 @@ class C09(CleanBase):
                 fails.append({"msg": "%s: report mode changed the snapshot directory" % where})
             if "TestGone - 1" not in out or "old_test.snap" not in out:
                 fails.append({"msg": "%s: report mode did not list the stale entry and the old file: %s" % (where, out[-400:])})
-            if "m_test.snap" in out or "TestStand_1.snap" in out or "TestVal - 1" in out:
+            if any(l.rstrip().endswith(("m_test.snap", "TestStand_1.snap", "TestVal - 1")) for l in out.splitlines()):
                 fails.append({"msg": "%s: report mode lists an addressed item as obsolete: %s" % (where, out[-400:])})
             # clean mode
             rc, out, img = run({"BB_VALUE": "v0", "BB_GONE": "0", "UPDATE_SNAPS": "clean"})
